@@ -444,6 +444,30 @@ for trial in range(3):
         return VList(seen['p'] + [seen['rho']])
     case('Cache2D.integrate_symmetric_point_pos.%d' % trial, nat_sym, sym_sym)
 
+# --- LowPass.calling_error_matrix: a[i, idx] += v with an index array, scipy binom.pmf over an array of k, 0.5**depths
+from dadi.LowPass import LowPass as _LP
+from vf.pyvc import FuncRef as _FuncRef
+for nsub_ in (2, 4):
+    probs_ = [fr(0.05, 1.0) for _ in range(4)]
+    tot_ = sum(probs_)
+    probs_ = [x / tot_ for x in probs_]
+    cov_ = [[F(0), F(1), F(2), F(3)], probs_]
+    parts_nat, pp_nat = _LP.partitions_and_probabilities(nsub_, 'genotype', 0)
+    parts_l = [[list(map(int, c)) for c in ps] for ps in parts_nat]
+    pp_l = [[F(float(x)) for x in ws] for ws in pp_nat]
+
+    def nat_cem(_n=nsub_, _c=cov_):
+        return _LP.calling_error_matrix(np.array([[float(x) for x in r] for r in _c]), _n, 0)
+
+    def sym_cem(_n=nsub_, _c=cov_, _p=parts_l, _w=pp_l):
+        def pol(fr_):
+            if fr_.qualname == 'partitions_and_probabilities':
+                return lambda ex_, f_, a, kw: (VList([VList([VList(list(c)) for c in ps]) for ps in _p]), VList([VList(list(w), 'ndarray') for w in _w]))
+            return 'inline' if fr_.qualname == 'calling_error_matrix' else 'abstract'
+        cd = VList([VList([0, 1, 2, 3], 'ndarray'), VList(list(_c[1]), 'ndarray')], 'ndarray')
+        return run1(Executor(policy=pol), 'dadi/LowPass/LowPass.py', 'calling_error_matrix', [cd, _n, 0])
+    case('LowPass.calling_error_matrix.%d' % nsub_, nat_cem, sym_cem)
+
 print('E2-vs-CPython cross-check: %d cases, %d mismatches (seed %d)' % (count[0], len(fails), seed))
 for n_, why in fails:
     print('MISMATCH %s: %s' % (n_, why))
